@@ -1033,21 +1033,33 @@ class TT():
             norm = tn.tensor([[1.0]], dtype=self.cores[0].dtype,
                              device=self.cores[0].device)
 
+            # the chain of Gram matrices is evaluated on cores of unit size (constant powers of two, no effect on the
+            # derivative): the product of the squared core norms under- / overflows long before the norm itself does
+            log2_scale = 0.0
+            cores_unit = []
+            for c in self.cores:
+                m = float(tn.max(tn.abs(c.detach()))) if c.numel() > 0 else 0.0
+                e = float(np.floor(np.log2(m))) if (m > 0 and np.isfinite(m)) else 0.0
+                log2_scale += e
+                cores_unit.append(c / (2.0**e))
+            with np.errstate(over='ignore'):
+                scale = float(np.float64(2.0)**np.float64(log2_scale))
+
             if self.__is_ttm:
                 for i in range(len(self.__N)):
                     norm = tn.einsum('ab,aijm,bijn->mn', norm,
-                                     self.cores[i], tn.conj(self.cores[i]))
+                                     cores_unit[i], tn.conj(cores_unit[i]))
                 norm = tn.squeeze(norm)
             else:
 
                 for i in range(len(self.__N)):
                     norm = tn.einsum('ab,aim,bin->mn', norm,
-                                     self.cores[i], tn.conj(self.cores[i]))
+                                     cores_unit[i], tn.conj(cores_unit[i]))
                 norm = tn.squeeze(norm)
             if squared:
-                return tn.real(norm)
+                return tn.real(norm) * scale * scale
             else:
-                return tn.sqrt(tn.abs(norm))
+                return tn.sqrt(tn.abs(norm)) * scale
 
         else:
             d = len(self.cores)
